@@ -5,6 +5,7 @@
 -/
 import AferoVerif.Model.Cow
 import AferoVerif.Proofs.ReadOnly
+import AferoVerif.Generated.Facts
 namespace AferoVerif.C05
 open AferoVerif AferoVerif.RO
 
@@ -242,5 +243,11 @@ example : (cowRun cow0 [.openFile "/f".toList O_SYNC 0, .hWrite 0 [9], .openFile
      .handle 2 none, .file (.bytes [7, 2, 3] none)] := by decide
 example : ((cowRun cow0 [.openFile "/f".toList O_RDWR 0, .hWrite 0 [7], .hClose 0]).1.s.b.stat (keyOfStr "/f".toList)) =
     .info "f".toList 3 false modeTemporary := by decide
+
+/-! ### tie to the source: constants regenerated from the Go code on every run -/
+
+/-- the model's write mask is the one written in `CopyOnWriteFs.OpenFile` (extracted from
+    copyOnWriteFs.go by harness/cmd/facts) -/
+theorem cowWriteMask_is_source : cowWriteMask = Generated.cowWriteMask := by decide
 
 end AferoVerif.C05
